@@ -8,9 +8,11 @@ PID = "C13"
 FAMILY = "BcastDKG"
 RULE = ("schedules = a cluster (n in 3..6, one faulty member at any position) followed by moves Bcast(honest h, session, "
         "id, payload, how the faulty member answers / which sends are lost), FSig(faulty f asks honest m to sign "
-        "(session, id, payload)) and FSend(f sends receiver r a BCastMessage with an explicit signature list); generated "
+        "(session, id, payload)) FSigC(several such requests inside m's handler at once: call / return events, TLC infers the "
+        "linearisation) and FSend(f sends receiver r a BCastMessage with an explicit signature list); generated "
         "(a) by TLC simulation of BcastDKGGen and (b) by a seeded scenario generator (complete own broadcast, "
-        "equivocation, relay of a foreign completely signed payload, cross-session / cross-id replay, permuted / "
+        "equivocation (also through CONCURRENT requests for one dedup slot, overlap forced by a gate inside the signing "
+        "step), relay of a foreign completely signed payload, cross-session / cross-id replay, permuted / "
         "truncated / extended / substituted lists, unknown id, payload of the wrong type, repeated and conflicting honest "
         "broadcasts, lost sends); executed on real bcast.New components (real secp256k1 keys; honest broadcasts run the "
         "unmodified client over a synchronous in-process transport, the faulty member calls the stream handlers directly); "
@@ -45,6 +47,11 @@ def fsig(f, m, s, i, pl):
 
 def fsend(f, r, s, i, pl, sigs):
     return {"ev": "FSend", "f": f, "r": r, "sess": s, "id": i, "pl": pl, "sigs": sigs}
+
+
+def fsigc(f, m, s, reqs):
+    """concurrent requests of f inside m's handler: reqs = [(id, payload), ...]"""
+    return {"ev": "FSigC", "f": f, "m": m, "sess": s, "reqs": [{"id": i, "pl": pl} for i, pl in reqs]}
 
 
 def bcast(h, s, i, pl, freply="sign", lose=None, fsg=None):
@@ -116,7 +123,8 @@ def scenario(r, big):
     pf2 = P(f, r.choice([b for b in bodies if b != pf["body"]]))
     steps = [{"ev": "Cfg", "n": n, "faulty": [f]}]
     kind = r.choice(["full", "equiv", "equiv", "relay", "relay", "relay_slot", "xsess", "xid", "lists", "lists", "unknown",
-                     "junk", "honest_twice", "lossy", "freply", "toself", "mix", "mix", "nofaulty", "slots"])
+                     "junk", "honest_twice", "lossy", "freply", "toself", "mix", "mix", "nofaulty", "slots",
+                     "conc", "conc", "conc"])
 
     def collect(pl, members, ss=s, ii=i):
         ms = list(members)
@@ -237,6 +245,22 @@ def scenario(r, big):
             h = r.randint(1, n)
             steps.append(bcast(h, r.choice(SESS), r.choice(IDS + ["zz"]), P(h, r.choice(bodies))))
         return steps
+    elif kind == "conc":
+        # equivocation through CONCURRENT requests for one (peer, id) slot: every honest member is asked to sign two or
+        # three different payloads at the same time (the order differs per member), then both are sent with full lists
+        pf3 = P(f, "w")
+        ms = hon[:]
+        r.shuffle(ms)
+        for m in ms:
+            cand = [pf, pf2] + ([pf3] if r.random() < 0.3 else []) + ([pf] if r.random() < 0.3 else [])
+            r.shuffle(cand)
+            reqs = [(i, c) for c in cand]
+            if r.random() < 0.2:
+                reqs.append((i2, pf))          # another slot in the same step
+            steps.append(fsigc(f, m, s, reqs))
+        steps += send_all(pf) + send_all(pf2)
+        if r.random() < 0.5:
+            steps += collect(pf2, hon) + send_all(pf2, r.sample(hon, 1))
     elif kind == "slots":
         # dedup is per requesting peer AND id AND component: the same payload / different payloads across them
         for _ in range(r.randint(4, 12)):
@@ -249,7 +273,9 @@ def scenario(r, big):
     for _ in range(r.randint(0, 4) if kind != "mix" else r.randint(6, 16 if not big else 40)):
         x = r.random()
         ss, ii, pl = r.choice(SESS), r.choice(IDS + (["zz"] if r.random() < 0.2 else [])), r.choice(pls)
-        if x < 0.45:
+        if x < 0.1:
+            steps.append(fsigc(f, r.choice(hon), ss, [(ii, pl), (ii, r.choice(pls)), (r.choice(IDS), r.choice(pls))][:r.randint(2, 3)]))
+        elif x < 0.45:
             steps.append(fsig(f, r.choice(hon), ss, ii, pl))
         elif x < 0.8:
             lst = exact(n, ss, ii, pl)
@@ -346,17 +372,32 @@ def mutators():
                 e["cb"]["pl"] = dict(e["cb"]["pl"], body=e["cb"]["pl"]["body"] + "'")
                 return t
         return None
-    return [("Sig result flipped", flip_sig_ok), ("Msg invoked flipped", flip_invoked),
+    def flip_sigret(t):
+        for e in t:
+            if e.get("ev") == "SigRet" and not e["ok"]:
+                e["ok"] = True            # "both payloads of one slot were signed"
+                return t
+        return None
+
+    def drop_sigcall(t):
+        for k, e in enumerate(t):
+            if e.get("ev") == "SigCall":
+                del t[k]
+                return t
+        return None
+    return [("concurrent refusal turned into a grant", flip_sigret), ("SigCall event dropped", drop_sigcall),
+            ("Sig result flipped", flip_sig_ok), ("Msg invoked flipped", flip_invoked),
             ("Msg accepted flipped", flip_accepted), ("granting Sig event dropped", drop_granting_sig),
             ("honest signature of another session in a delivered list", forged_sig),
             ("delivered list uses honest signatures that were never handed out", unknown_sig),
             ("callback saw another payload", callback_saw_other)]
 
 
-QUICK_MC = [("BcastDKGMC_equiv_quick.cfg", 600), ("BcastDKGMC_replay_quick.cfg", 600)]
+QUICK_MC = [("BcastDKGMC_equiv_quick.cfg", 600), ("BcastDKGMC_replay_quick.cfg", 600), ("BcastDKGMC_conc_quick.cfg", 600)]
 THOROUGH_MC = [("BcastDKGMC_equiv.cfg", 900), ("BcastDKGMC_equiv2.cfg", 900), ("BcastDKGMC_full3.cfg", 900),
-               ("BcastDKGMC_full4.cfg", 900), ("BcastDKGMC_replay.cfg", 900)]
-CONTROLS = [("BcastDKGMC_ctl_nodedup.cfg", "AgreementAccepted", "server.dedup removed"),
+               ("BcastDKGMC_full4.cfg", 900), ("BcastDKGMC_replay.cfg", 900), ("BcastDKGMC_conc.cfg", 900)]
+CONTROLS = [("BcastDKGMC_ctl_checkthenact.cfg", "DedupFunctional", "dedupHash split into compare / sign / record (check-then-act)"),
+            ("BcastDKGMC_ctl_nodedup.cfg", "AgreementAccepted", "server.dedup removed"),
             ("BcastDKGMC_ctl_nosession.cfg", "AllSigned", "session hash not bound by newHashAny"),
             ("BcastDKGMC_ctl_noid.cfg", "AllSigned", "message id not bound by newHashAny"),
             ("BcastDKGMC_ctl_raw.cfg", "AgreementRaw", "deviation RelayForeignPayload not set aside (known finding %s)" % FINDING),
@@ -402,7 +443,7 @@ def run(tier, seed):
     # coverage of the corners in the recorded traces (vacuity guard: the attacks must really have been mounted)
     tr = vlib.split_traces(vlib.read_ndjson(vlib.workdir(PID) + "/trace_random.ndjson"))
     cov = {"faulty_delivered_accepted": 0, "faulty_delivered_rejected_by_callback": 0, "faulty_refused": 0,
-           "honest_delivered": 0, "sig_refused": 0, "sig_granted": 0}
+           "honest_delivered": 0, "sig_refused": 0, "sig_granted": 0, "concurrent_granted": 0, "concurrent_refused": 0}
     for t in tr:
         fl = t[0].get("faulty", [])
         for e in t:
@@ -414,6 +455,8 @@ def run(tier, seed):
                     cov["honest_delivered"] += 1
             elif e.get("ev") == "Sig":
                 cov["sig_granted" if e["ok"] else "sig_refused"] += 1
+            elif e.get("ev") == "SigRet":
+                cov["concurrent_granted" if e["ok"] else "concurrent_refused"] += 1
     o.extra["corner_counts"] = cov
     if min(cov.values()) == 0:
         raise vlib.Infra("vacuous coverage: %s" % cov)
